@@ -107,7 +107,18 @@ func runProgFast(p *Prog) *Result {
 	timedOut := false
 	timer := time.AfterFunc(15*time.Second, func() { timedOut = true; ir.Interrupt(os.Interrupt) })
 	defer timer.Stop()
+	before := fast.VerifCounters()
 	finish := func() *Result {
+		after := fast.VerifCounters()
+		res.Extra = map[string]string{
+			"FramesTaken":    strconv.FormatInt(after.FramesTaken-before.FramesTaken, 10),
+			"FramesReused":   strconv.FormatInt(after.FramesReused-before.FramesReused, 10),
+			"FramesPooled":   strconv.FormatInt(after.FramesPooled-before.FramesPooled, 10),
+			"SkippedClosure": strconv.FormatInt(after.SkippedClosure-before.SkippedClosure, 10),
+			"IntsDetached":   strconv.FormatInt(after.IntsDetached-before.IntsDetached, 10),
+			"ValsPoisoned":   strconv.FormatInt(after.ValsPoisoned-before.ValsPoisoned, 10),
+			"IntsPoisoned":   strconv.FormatInt(after.IntsPoisoned-before.IntsPoisoned, 10),
+		}
 		res.Events = trace.Events
 		res.Hooks = trace.Hooks
 		if timedOut {
